@@ -34,8 +34,11 @@
 (*                  properties, <temperature>.initialize_profile,           *)
 (*                  <chemistry>.initialize_chemistry) [name, a, b, same]:   *)
 (*                  a = the private copy kept by the harness, b = the array *)
-(*                  after the call.  The model is assembled from components *)
-(*                  of any built-in type (e.kinds names them).              *)
+(*                  after the call; told: [name, a, b, same] a = the        *)
+(*                  temperature per layer a component was TOLD (array, file, *)
+(*                  isothermal), b = the temperature profile it exposes.    *)
+(*                  The model is assembled from components of any built-in  *)
+(*                  type (e.kinds names them).                              *)
 (*                                                                         *)
 (* Numbers are observations <<m, e>> = m * 10^e with 9-digit mantissas     *)
 (* (m < 0: NaN / Inf / negative / entry absent) and all relations of       *)
@@ -132,8 +135,10 @@ PairOk(p) == p.same /\ RepeatableRel(p.a, p.b)
 ReadsFails(e) ==
     (IF \A j \in 1..Len(e.pairs) : PairOk(e.pairs[j]) THEN {} ELSE {"reads_repeatable"})
     \cup (IF \A j \in 1..Len(e.handed) : PairOk(e.handed[j]) THEN {} ELSE {"handed_arrays_unchanged"})
+    \cup (IF \A j \in 1..Len(e.told) : PairOk(e.told[j]) THEN {} ELSE {"temperature_aligned_with_layers"})
 ReadsWrong(e) == {e.pairs[j].name : j \in {jj \in 1..Len(e.pairs) : ~PairOk(e.pairs[jj])}}
                  \cup {e.handed[j].name : j \in {jj \in 1..Len(e.handed) : ~PairOk(e.handed[jj])}}
+                 \cup {e.told[j].name : j \in {jj \in 1..Len(e.told) : ~PairOk(e.told[jj])}}
 
 Fails(e) == IF e.ev = "levels" THEN LevelsFails(e)
             ELSE IF e.ev = "chem" THEN ChemFails(e)
